@@ -3,14 +3,25 @@ package props
 import (
 	"fmt"
 	"sort"
+	"strings"
 	"testing"
 
 	"verif/explore"
 )
 
 func init() {
-	runners["C05"] = func(t *testing.T, c explore.Case) explore.Result { return runTable(t, c, "C05") }
-	runners["C06"] = func(t *testing.T, c explore.Case) explore.Result { return runTable(t, c, "C06") }
+	runners["C05"] = func(t *testing.T, c explore.Case) explore.Result {
+		if strings.HasPrefix(c.Unit, "maint;") {
+			return runMaint(t, c, "C05")
+		}
+		return runTable(t, c, "C05")
+	}
+	runners["C06"] = func(t *testing.T, c explore.Case) explore.Result {
+		if strings.HasPrefix(c.Unit, "maint;") {
+			return runMaint(t, c, "C06")
+		}
+		return runTable(t, c, "C06")
+	}
 }
 
 // tableExplore drives the routing-table BFS for C05 or C06: units are
@@ -68,7 +79,10 @@ func tableExplore(t *testing.T, prop string) {
 			}
 		}
 	}
+	// maintenance-driven histories (real TableMaintainer), with what is left of the budget
+	maintExplore(t, w, prop, &idx)
 }
 
 func TestC05(t *testing.T) { tableExplore(t, "C05") }
+
 func TestC06(t *testing.T) { tableExplore(t, "C06") }
